@@ -696,7 +696,16 @@ func (vq *vQueue) write(op, uuid string, f func(string) error) error {
 	if m.isDead(vq.gen) {
 		return errGenDead
 	}
-	err := f(uuid)
+	// test.Queue applies Lock/Unlock to its cached entry and then overwrites
+	// the "database" record without looking at it, so a dispatcher Lock based on
+	// a stale cache would turn an API-side Cancelled back into Locked. The real
+	// API server refuses such a transition; do the same here.
+	var err error
+	if cur, _ := m.dbState(uuid); (op == "lock" && cur != "Queued") || (op == "unlock" && cur != "Locked") {
+		err = fmt.Errorf("verif: API refuses %s: container state is %s", op, cur)
+	} else {
+		err = f(uuid)
+	}
 	st, prio := m.dbState(uuid)
 	m.mu.Lock()
 	info := fmt.Sprintf("-> %s prio=%d", st, prio)
